@@ -295,11 +295,18 @@ func VPH_mainSpellings() {
 		{{"--no-verbose"}, {"--threshold=1"}},
 		{{"-j"}, {"--json"}},
 		{{"--branches"}, {"--include", "refs/heads"}},
+		{{"--no-branches"}, {"--exclude", "refs/heads"}},
+		{{"--tags"}, {"--include", "refs/tags"}},
 		{{"--no-tags"}, {"--exclude", "refs/tags"}},
+		{{"--remotes"}, {"--include", "refs/remotes"}},
+		{{"--no-remotes"}, {"--exclude", "refs/remotes"}},
+		{{"--notes"}, {"--include", "refs/notes"}},
+		{{"--no-notes"}, {"--exclude", "refs/notes"}},
 		{{"--stash"}, {"--include", "/refs/stash/"}},
+		{{"--no-stash"}, {"--exclude", "/refs/stash/"}},
 	}
 	pr := pairs[vp_Choice("pair", len(pairs))]
-	probe := []string{"refs/heads/", "refs/tags/", "refs/st"}[vp_Choice("probe", 3)] + vp_Str("r", 3)
+	probe := []string{"refs/heads/", "refs/tags/", "refs/st", "refs/remotes/", "refs/notes", "refs/"}[vp_Choice("probe", 6)] + vp_Str("r", 3)
 	vp_AssumeASCII(probe)
 	for i := 0; i < len(probe); i++ {
 		vp_Assume(probe[i] != '\n')
@@ -320,5 +327,128 @@ func VPH_mainSpellings() {
 	a, b := caps[0], caps[1]
 	vp_Assert(a.walkProbe == b.walkProbe, "equivalent spellings select the same references")
 	vp_Assert(a.threshold == b.threshold && a.nameStyle == b.nameStyle && a.output == b.output && a.progress == b.progress, "equivalent spellings reach the renderer with identical settings")
+	vp_Reach("end")
+}
+
+
+// VPH_mainFaults (C10): whatever fails before the report is written - the
+// repository cannot be opened, gitconfig cannot be read, an option value or a
+// ROOT is invalid, the reference listing or the scan fails - the run returns
+// an error and writes nothing to stdout.
+func VPH_mainFaults() {
+	if vp_Native() {
+		vp_Reach("end")
+		return
+	}
+	cases := [][]string{
+		{"--threshold=abc"}, {"--names=bogus"}, {"--json-version=x"}, {"--json", "--json-version=3"}, {"--bogus-option"},
+		{"--include=@undefined"}, {"--include=@"}, {"--include=/(/"}, {"--exclude-regexp", "("}, {"--refgroup", "nosuch"},
+		{"bad"}, {"--branches=maybe"}, {"--verbose=2"},
+	}
+	site := vp_Choice("site", len(cases)+5)
+	cfg := &vpConfig{consulted: map[string]int{}}
+	cap := &vpCaptured{}
+	vpInstallMainStubs(cfg, cap, "refs/heads/x")
+	var args []string
+	boom := errors.New("injected")
+	switch {
+	case site < len(cases):
+		args = cases[site]
+	case site == len(cases):
+		vp_Stub("github.com/github/git-sizer/git.NewRepositoryFromPath", func(path string) (*git.Repository, error) { return nil, boom })
+	case site == len(cases)+1:
+		vp_Stub("(*github.com/github/git-sizer/git.Repository).GetConfig", func(r *git.Repository, prefix string) (*git.Config, error) { return nil, boom })
+	case site == len(cases)+2:
+		vp_Stub("github.com/github/git-sizer/sizes.CollectReferences", func(ctx context.Context, repo *git.Repository, rg sizes.RefGrouper) ([]sizes.RefRoot, error) {
+			return nil, boom
+		})
+	case site == len(cases)+3:
+		vp_Stub("github.com/github/git-sizer/sizes.ScanRepositoryUsingGraph", func(ctx context.Context, repo *git.Repository, roots []sizes.Root, ns sizes.NameStyle, pm meter.Progress) (sizes.HistorySize, error) {
+			return sizes.HistorySize{}, boom
+		})
+	default:
+		vp_Stub("(*github.com/github/git-sizer/git.Repository).ConfigStringDefault", func(r *git.Repository, key string, def string) (string, error) { return def, boom })
+	}
+	var stdout, stderr bytes.Buffer
+	var err error
+	panicked := vp_Catch(func() { err = mainImplementation(context.Background(), &stdout, &stderr, args) })
+	vp_Assert(!panicked, "no panic")
+	vp_Assert(err != nil, "the run fails (non-zero exit status, message on stderr)")
+	vp_Assert(stdout.Len() == 0 && cap.outputs == 0 && vp_JSONCalls() == 0, "no report is written")
+	vp_Reach("end")
+}
+
+// VPH_mainSelection (C06 end to end): sequences of selection options through
+// the real pflag and option values; the reference is traversed iff the last
+// matching option includes it (none matching: the opposite of the first).
+func VPH_mainSelection() {
+	if vp_Native() {
+		vp_Reach("end")
+		return
+	}
+	type sel struct {
+		args  []string
+		inc   bool
+		kind  int // 0 prefix, 1 regexp
+		param string
+	}
+	menu := []sel{
+		{[]string{"--include", "refs/heads"}, true, 0, "refs/heads"},
+		{[]string{"--exclude=refs/heads/a"}, false, 0, "refs/heads/a"},
+		{[]string{"--branches"}, true, 0, "refs/heads"},
+		{[]string{"--no-tags"}, false, 0, "refs/tags"},
+		{[]string{"--include", "/refs/.*/a.?/"}, true, 1, "refs/.*/a.?"},
+		{[]string{"--exclude", "@tags"}, false, 0, "refs/tags/"},
+		{[]string{"--exclude", "/refs/heads/a|refs/tags/b/"}, false, 1, "refs/heads/a|refs/tags/b"},
+	}
+	n := vp_Choice("nopts", vp_Param("maxopts")+1)
+	var opts []sel
+	var args []string
+	for i := 0; i < n; i++ {
+		o := menu[vp_Choice("opt", len(menu))]
+		opts = append(opts, o)
+		args = append(args, o.args...)
+	}
+	withRoot := vp_Choice("root", 2) == 1
+	if withRoot {
+		args = append(args, "HEAD")
+	}
+	probe := []string{"refs/heads/", "refs/tags/"}[vp_Choice("probe", 2)] + vp_Str("r", 2)
+	vp_AssumeASCII(probe)
+	for i := 0; i < len(probe); i++ {
+		vp_Assume(probe[i] != '\n')
+	}
+	cfg := &vpConfig{consulted: map[string]int{}}
+	cap := &vpCaptured{}
+	vpInstallMainStubs(cfg, cap, probe)
+	var stdout, stderr bytes.Buffer
+	err := mainImplementation(context.Background(), &stdout, &stderr, args)
+	vp_Assert(err == nil, "valid selections are accepted")
+	if err != nil {
+		return
+	}
+	matches := func(o sel) bool {
+		if o.kind == 1 {
+			return vp_RegexpFullMatch(o.param, probe)
+		}
+		p := o.param
+		if len(probe) < len(p) || probe[:len(p)] != p {
+			return false
+		}
+		return p[len(p)-1] == '/' || len(probe) == len(p) || probe[len(p)] == '/'
+	}
+	want := !withRoot // no option: everything, unless only ROOTs were given
+	for i, o := range opts {
+		if i == 0 {
+			want = !o.inc
+		}
+		if matches(o) {
+			want = o.inc
+		}
+	}
+	vp_Assert(cap.walkProbe == want, "traversed iff the last matching option includes it; none given: all references, or none when ROOTs are given")
+	if withRoot {
+		vp_Assert(cap.roots == 1, "the ROOT argument is a root of the scan")
+	}
 	vp_Reach("end")
 }
